@@ -44,6 +44,9 @@ inductive W where
   removed, the scripts that were rolled back get the number `filtered` (the fork handling
   passes `toNumber - 1`: the block `toNumber` itself is removed) -/
   | rollback (toNumber filtered : Nat)
+  /-- the batch of `rollback_after_fork`: the records that start above the fork point go, the
+  index is rolled back to `rb` and the rolled-back scripts record `rb - 1` -/
+  | forkBatch (forkNumber rb : Nat)
   deriving Repr, DecidableEq
 
 def insertRecord (r : Record) : List Record → List Record
@@ -67,6 +70,13 @@ def applyW (p : P) : W → P
         !(e.2 ≥ toNumber && p.scripts.any (fun s => s.1 = e.1 && toNumber ≤ s.2))),
       scripts := p.scripts.map (fun s => if toNumber ≤ s.2 then (s.1, filtered) else s),
       minF := if toNumber ≤ p.minF then toNumber - 1 else p.minF }
+  | .forkBatch f rb =>
+    let q : P := { p with records := p.records.filter (fun r => r.start ≤ f) }
+    { q with
+      indexed := q.indexed.filter (fun e =>
+        !(e.2 ≥ rb && q.scripts.any (fun s => s.1 = e.1 && rb ≤ s.2))),
+      scripts := q.scripts.map (fun s => if rb ≤ s.2 then (s.1, rb - 1) else s),
+      minF := if rb ≤ q.minF then rb - 1 else q.minF }
 
 def applyWs (p : P) (ws : List W) : P := ws.foldl applyW p
 
@@ -138,13 +148,22 @@ def blocksWrites (p : P) : List W :=
 
 /-! ### fork rollback (`commit_prove_state`) -/
 
-/-- records starting above the fork point are dropped one by one, then the index is rolled back
-to just above the last remaining record (or the fork point) -/
+/-- the rollback point of the fork handling: the block after the last record that starts at or
+below the fork point, or after the fork point itself -/
+def forkRb (p : P) (f : Nat) : Nat :=
+  (match (p.records.filter (fun r => r.start ≤ f)).getLast? with
+    | some r => r.start | none => f) + 1
+
+/-- `Storage::rollback_after_fork`: ONE batch removes the records that start above the fork point
+and rolls the index back to the block after the last remaining record (or the fork point) -/
 def forkWrites (p : P) (forkNumber : Nat) : List W :=
+  [.forkBatch forkNumber (forkRb p forkNumber)]
+
+/-- the fork handling as it was before the repair: the records above the fork point were deleted
+one by one, THEN the rollback batch was written -/
+def oldForkWrites (p : P) (forkNumber : Nat) : List W :=
   let dropped := (p.records.filter (fun r => forkNumber < r.start)).reverse.map (fun r => W.delRecord r.start)
-  let kept := p.records.filter (fun r => r.start ≤ forkNumber)
-  let rb := (match kept.getLast? with | some r => r.start | none => forkNumber) + 1
-  dropped ++ [.rollback rb (rb - 1)]
+  dropped ++ [.rollback (forkRb p forkNumber) (forkRb p forkNumber - 1)]
 
 /-! ### driver -/
 
